@@ -142,15 +142,21 @@ def run(tier):
             if pr.get(i) != exp:
                 v.violation("%s|%s|%s" % (text(row["v"]), row["b"], expr(row["op"])),
                             {"kind": "operator result differs", "value": text(row["v"]), "binding": row["b"], "expr": expr(row["op"]), "expected": exp, "observed": pr.get(i), "op": row["op"]})
+    from . import c06b
+    evals_b, rows_b = c06b.run_part(v, tier)
+    evals += evals_b
+    nontrivial += evals_b
     if v.audit_disagreements > 0.02 * max(1, evals):
         raise ToolError("model/bash disagreement rate too high: %d of %d" % (v.audit_disagreements, evals))
     return v.finish({
-        "states": len(allrows), "transitions": len(allrows), "traces_validated_against_impl": evals,
+        "states": len(allrows) + rows_b, "transitions": len(allrows) + rows_b, "traces_validated_against_impl": evals, "array_rows": rows_b,
         "evaluations": evals, "distinct_nontrivial": nontrivial,
         "rule": "every value of <= %d characters over {a b SP NL * e-acute} x every operator instance: ${#v}; ${v:o} ${v:o:l} with o, l in {-4,-2,-1,0,1,2,4}; "
                 "${v#p} ${v##p} ${v%%p} ${v%%%%p} and ${v/p/r} ${v//p/r} ${v/#p/r} ${v/%%p/r} with every pattern of <= 2 tokens over {a b * ? SP}; ${v^} ${v^^} ${v,} ${v,,}; "
                 "the eight default/assign/alternative/error operators x {unset, null, set}; states = (value, operator) pairs evaluated by ParamOps.tla inside TLC, which also checks "
-                "the declarative shortest/longest clause (RemovalSound) and SubstrSound on every value; non-trivial = the result differs from the value or is an error" % vl,
+                "the declarative shortest/longest clause (RemovalSound) and SubstrSound on every value; non-trivial = the result differs from the value or is an error; "
+                "second part (MC_ParamArr.tla): every array of <= 3 elements over 5 element values x slices ${a[@]:o:l} / ${@:o:l} with o in {-4..4}, ${#a[@]}, ${!a[@]}, ${#a[i]}, nine scalar operators mapped over the elements; "
+                "${!v} with its :- and :+ forms for v naming a set / empty / unset variable or unset itself; ${v@U} ${v@u} ${v@L}" % vl,
         "exhaustive": True,
         "samples": [{"value": text(r0["v"]), "expr": expr(r0["op"]), "expected": expected(r0)} for r0 in allrows[:: max(1, len(allrows) // 3)][:3]],
     }, assumptions=["bash 5.2.15 is the reference; a (value, operator) pair counts only if bash reproduces the model's result",
